@@ -117,3 +117,10 @@ def search(ctx):
 
 def replay(ctx, case):
     return replay_eval(ctx, "C06", case)
+
+
+MANIFEST = dict(
+    text='Proof (PARTIAL): one CVO-QRAM iteration (flip-flop, multi-controlled U, flip-flop) on any number of qubits maps L + g*delta_flag to L + U01 g*delta_pattern + U11 g*delta_flag whenever the loaded part L vanishes on flag=1 and on states containing the control set (C06_cvo_step). Tie: the instruction list of CvoqramInitialize (aux/no aux, every backend) is compared inside Coq with CvoModel.cvo_gates; the emitted rotation matrices must satisfy the amplitude recurrence that instantiates the theorem. Merge, pivot and the full-state claims are evaluated.',
+    note='Modelled, not verified: the multi-controlled U (C04 / rccx ladder) as ideal; merge and pivot bookkeeping evaluated only.',
+    technique='Coq proof (explicit-state step lemma) + instruction-list correspondence (vm_compute) + amplitude-recurrence contract + state-vector evaluation',
+    design_ref='DESIGN.md section 4, C06')
